@@ -130,6 +130,23 @@ def run(case, ctx):
     if not ok or canon(again) != cexp:
         ctx.violate(f"C03/history/{sig}", f"the same path object resolves the same document differently after being used on others: "
                     f"{again!r} vs {exp!r}; path={pterm}")
+    # history: the caller edits its document in place (same size) and resolves again
+    d2 = M.deep_copy(doc)
+    call(p.get_data, d2)
+    conts = [n for _, n in G.all_nodes(d2) if type(n) in (dict, list) and n]
+    tgt = conts[(len(conts) * 7 + len(pterm["parts"])) % len(conts)] if len(conts) > 1 else d2
+    for tgt_ in (d2, tgt):
+        k0 = next(iter(tgt_)) if type(tgt_) is dict else len(tgt_) - 1
+        tgt_[k0] = {"edited": True} if canon(tgt_[k0]) != canon({"edited": True}) else [7]
+    try:
+        e3 = M.expected_get(pterm, d2)
+        ok, g3 = call(p.get_data, d2)
+        ctx.count("entry:resolve-after-in-place-edit")
+        if not ok or canon(g3) != canon(e3):
+            ctx.violate(f"C03/history/{sig}", f"after the caller edited its document in place the path resolves to {g3!r}, "
+                        f"the edited document gives {e3!r}; path={pterm}")
+    except M.Undefined:
+        pass
     for name, detail in mon.CONTRACTS.take():
         ctx.violate(f"C03/contract:{name}", detail)
     if info:
